@@ -1,0 +1,33 @@
+//go:build verif
+
+package electricpb
+
+// Machine-checked contracts for this package (comment-only; excluded from normal builds).
+
+//@ property C15
+//@ pure func sortedModes(ms) = forall i int, j int :: 0 <= i && i < j && j < len(ms) ==> ms[i].Id < ms[j].Id
+//@ pure func allModes(ms) = forall i int :: 0 <= i && i < len(ms) ==> ms[i] != nil
+//@
+//@ // the listing the pages are cut from: sorted by the paging key (follows from Collection.List being sorted by id and
+//@ // every stored mode carrying its collection id; assumed here, see C01/C19)
+//@ func (*Model).Modes(opts) (res)
+//@   trusted
+//@   ensures allModes(res) && sortedModes(res)
+//@   modifies nothing
+//@
+//@ func capPageSize(pageSize) (r)
+//@   ensures pageSize == 0 ==> r == 50
+//@   ensures pageSize > 1000 ==> r == 1000
+//@   ensures pageSize != 0 && pageSize <= 1000 ==> r == pageSize
+//@   modifies nothing
+//@
+//@ func (*ModelServer).ListModes(ctx, request) (resp, err)
+//@   requires recv != nil && recv.model != nil && request != nil
+//@   let all := lastcall(Modes)
+//@   ensures [negative] request.PageSize < 0 ==> err != nil
+//@   ensures [total] err == nil && len(all) <= 2147483647 ==> resp.TotalSize == len(all)
+//@   ensures [page] err == nil ==> 0 <= nextIndex && nextIndex <= upperBound && upperBound <= len(all) && resp.Modes == all[nextIndex:upperBound]
+//@   ensures [start] err == nil ==> (lastKey == "" ==> nextIndex == 0) && (forall i int :: 0 <= i && i < nextIndex ==> all[i].Id <= lastKey) && (forall i int :: nextIndex <= i && i < len(all) ==> lastKey == "" || all[i].Id > lastKey)
+//@   ensures [size] err == nil ==> 1 <= pageSize && pageSize <= 1000 && (request.PageSize == 0 ==> pageSize == 50) && upperBound - nextIndex <= pageSize && (upperBound == len(all) || upperBound - nextIndex == pageSize)
+//@   ensures [last-page] err == nil && nextIndex + pageSize > len(all) ==> resp.NextPageToken == ""
+//@   replay ElectricListModes(request.PageSize)
